@@ -363,6 +363,106 @@ theorem self_feedback (ops : List Op) (hl : ∀ op ∈ ops, Op.isLocal op = true
   rw [recvAll_char, sender_is_last ops hl [] j]
   cases lastOf j (allBcasts (run [] ops).2) <;> rfl
 
+
+/-! ### replication for arbitrary histories (local operations interleaved with received snapshots) -/
+
+/-- partitions whose state was last written by a *received* snapshot rather than by a broadcast of this instance -/
+def stepDirty (s : Store) (D : List Int) : Op → List Int
+  | .recv k _ => (k.getD 0) :: D
+  | .recvBad _ => D
+  | op => D.filter (fun j => (lastOf j (bcastsOf (step s op).2)).isNone)
+
+def runDirty (s : Store) (D : List Int) : List Op → List Int
+  | [] => D
+  | op :: ops => runDirty (step s op).1 (stepDirty s D op) ops
+
+def optOr (a b : Option Snap) : Option Snap := match a with | some w => some w | none => b
+
+theorem lastOf_append' (j : Int) (l1 l2 : List Bcast) : lastOf j (l1 ++ l2) = optOr (lastOf j l2) (lastOf j l1) := by
+  rw [lastOf_append]; cases lastOf j l2 <;> rfl
+
+/-- **sender is last, in general**: after ANY operation sequence, every partition that is not dirty holds exactly the
+payload of this instance's last broadcast for it -/
+theorem sender_is_last_general (ops : List Op) : ∀ (s : Store) (D : List Int) (bs : List Bcast),
+    (∀ j, j ∉ D → s.get? j = lastOf j bs) →
+    ∀ j, j ∉ runDirty s D ops → (run s ops).1.get? j = lastOf j (bs ++ allBcasts (run s ops).2) := by
+  induction ops with
+  | nil => intro s D bs h j hj; simpa [run, runDirty, allBcasts] using h j (by simpa [runDirty] using hj)
+  | cons op ops ih =>
+    intro s D bs h j hj
+    simp only [run, runDirty, allBcasts, List.flatMap_cons] at hj ⊢
+    have key : ∀ i, i ∉ stepDirty s D op → (step s op).1.get? i = lastOf i (bs ++ bcastsOf (step s op).2) := by
+      intro i hi
+      cases hop : op with
+      | recv k l =>
+        subst hop
+        simp only [stepDirty, List.mem_cons, not_or] at hi
+        simp only [step, receive, bcastsOf, List.append_nil]
+        rw [AList.get?_set_ne _ _ _ _ hi.1]; exact h i hi.2
+      | recvBad k =>
+        subst hop
+        simp only [stepDirty] at hi
+        simpa [step, bcastsOf] using h i hi
+      | add p f t =>
+        subst hop
+        have hl := step_local s (.add p f t) rfl i
+        rw [hl, lastOf_append']
+        cases hx : lastOf i (bcastsOf (step s (.add p f t)).2) with
+        | some w => rfl
+        | none =>
+          simp only [optOr]
+          exact h i (fun hd => hi (List.mem_filter.2 ⟨hd, by simp [hx]⟩))
+      | upd p f t =>
+        subst hop
+        have hl := step_local s (.upd p f t) rfl i
+        rw [hl, lastOf_append']
+        cases hx : lastOf i (bcastsOf (step s (.upd p f t)).2) with
+        | some w => rfl
+        | none =>
+          simp only [optOr]
+          exact h i (fun hd => hi (List.mem_filter.2 ⟨hd, by simp [hx]⟩))
+      | done p t =>
+        subst hop
+        have hl := step_local s (.done p t) rfl i
+        rw [hl, lastOf_append']
+        cases hx : lastOf i (bcastsOf (step s (.done p t)).2) with
+        | some w => rfl
+        | none =>
+          simp only [optOr]
+          exact h i (fun hd => hi (List.mem_filter.2 ⟨hd, by simp [hx]⟩))
+      | cancel =>
+        subst hop
+        have hl := step_local s .cancel rfl i
+        rw [hl, lastOf_append']
+        cases hx : lastOf i (bcastsOf (step s .cancel).2) with
+        | some w => rfl
+        | none =>
+          simp only [optOr]
+          exact h i (fun hd => hi (List.mem_filter.2 ⟨hd, by simp [hx]⟩))
+      | get p =>
+        subst hop
+        have hl := step_local s (.get p) rfl i
+        rw [hl, lastOf_append']
+        cases hx : lastOf i (bcastsOf (step s (.get p)).2) with
+        | some w => rfl
+        | none =>
+          simp only [optOr]
+          exact h i (fun hd => hi (List.mem_filter.2 ⟨hd, by simp [hx]⟩))
+    have := ih (step s op).1 (stepDirty s D op) (bs ++ bcastsOf (step s op).2) key j hj
+    simpa [allBcasts, List.append_assoc] using this
+
+/-- **snapshot replication, in general**: whatever the history (requests, progress, completions, cancel-all, snapshots
+received from other instances at any point), an instance that has seen all broadcasts of the sender or any compaction of
+them holds exactly the sender's requests for every partition the sender wrote last -/
+theorem snapshot_replication_general (ops : List Op) (ms' : List Bcast)
+    (hc : Compacts (allBcasts (run [] ops).2) ms') (j : Int) (hj : j ∉ runDirty [] [] ops) :
+    (recvAll [] ms').get? j = (run [] ops).1.get? j := by
+  rw [compaction_invisible [] _ _ hc, recvAll_char]
+  have := sender_is_last_general ops [] [] [] (fun i _ => by simp [AList.get?, lastOf]) j hj
+  simp only [List.nil_append] at this
+  rw [this]
+  cases lastOf j (allBcasts (run [] ops).2) <;> simp [AList.get?]
+
 /-- premises are satisfiable by a non-trivial history (merge, progress, completion, cancel) -/
 example :
     let ops : List Op := [.add 0 10 20, .add 0 15 30, .upd 0 17 30, .add 1 1 2, .done 1 2, .cancel, .add 0 5 6]
